@@ -117,6 +117,26 @@ func (w *cacheWorld) view(p []string) viewVals {
 	return v
 }
 
+// childView answers the same questions about p through a child view of the cache rooted at p's first
+// segment ("" when there is no such view); it must agree with the cache's own answers.
+func (w *cacheWorld) childView(p []string) (string, bool) {
+	if len(p) < 2 {
+		return "", false
+	}
+	sub, err := w.cache.Filespace(p[0])
+	if err != nil {
+		return "", false
+	}
+	rel := p[1:]
+	path := strings.Join(rel, "/")
+	v := viewVals{Exist: sub.IsExist(path), File: sub.IsFile(path), Dir: sub.IsDir(path)}
+	v.Read = fsx.Exec(sub, fsx.Op{Name: "read", Sp: rel}, w.d, nil)
+	v.Lstat = fsx.Exec(sub, fsx.Op{Name: "lstat", Sp: rel}, w.d, nil)
+	v.List = fsx.Exec(sub, fsx.Op{Name: "readdir", Sp: rel}, w.d, nil)
+	v.Stream = fsx.Exec(sub, fsx.Op{Name: "rstream", Sp: rel, Chunk: 5}, w.d, nil)
+	return v.key() + "|" + fsx.Res(v.Stream).Key(), true
+}
+
 func pathSet(ps [][]string) string {
 	var s []string
 	for _, p := range ps {
@@ -325,6 +345,9 @@ func cmdCacheCases(args []string) error {
 			}
 			if got.key() != ve.Impl.key() || fsx.Res(got.Stream).Key() != fsx.Res(ve.Impl.Read).Key() {
 				allImpl = false
+			}
+			if cv, ok := w.childView(ve.P); ok && cv != got.key()+"|"+fsx.Res(got.Stream).Key() {
+				fail("C07:childview", short, fmt.Sprintf("at %q a child view of the cache answers %s, the cache itself %s", strings.Join(ve.P, "/"), cv, got.key()+"|"+fsx.Res(got.Stream).Key()))
 			}
 		}
 		if clean {
